@@ -23,6 +23,15 @@ type c15KV struct {
 type c15Input struct {
 	KVs   []c15KV `json:"kvs"`
 	Perms [][]int `json:"perms"` // permutations of indices (presentations of the same set)
+	// in-place updates applied, one after the other, to the list that was merklized last (the same
+	// backing array, the same length): the root must follow the octets, not the identity of the list
+	Muts []c15Mut `json:"muts,omitempty"`
+}
+
+type c15Mut struct {
+	Idx    int    `json:"idx"`
+	Val    []byte `json:"val"`
+	KeyBit int    `json:"key_bit"` // >= 0: this bit of the key is flipped as well
 }
 
 func c15RefBit(k []byte, i int) int { return int(k[i/8]>>(7-uint(i%8))) & 1 }
@@ -101,6 +110,17 @@ func c15Gen(rt *rapid.T) c15Input {
 	for p := 0; p < 3; p++ {
 		in.Perms = append(in.Perms, rapid.Permutation(seq(len(kvs))).Draw(rt, "perm"))
 	}
+	if len(kvs) > 0 && len(kvs) <= 200 {
+		nm := rapid.IntRange(0, 3).Draw(rt, "nmut")
+		for m := 0; m < nm; m++ {
+			vl := rapid.OneOf(rapid.SampledFrom([]int{0, 1, 31, 32, 33, 64}), rapid.IntRange(0, 80)).Draw(rt, "mvl")
+			in.Muts = append(in.Muts, c15Mut{
+				Idx:    rapid.IntRange(0, len(kvs)-1).Draw(rt, "midx"),
+				Val:    rapid.SliceOfN(rapid.Byte(), vl, vl).Draw(rt, "mval"),
+				KeyBit: rapid.OneOf(rapid.Just(-1), rapid.IntRange(0, 247)).Draw(rt, "mkeybit"),
+			})
+		}
+	}
 	return in
 }
 
@@ -158,11 +178,13 @@ func c15Check(c *kit.Case, in c15Input) {
 	if nt {
 		c.NonTrivial()
 	}
+	var last types.StateKeyVals
 	for pi, perm := range in.Perms {
 		if len(perm) != len(in.KVs) {
 			continue
 		}
 		skv := make(types.StateKeyVals, len(perm))
+		last = skv
 		for i, idx := range perm {
 			if idx < 0 || idx >= len(in.KVs) {
 				return
@@ -186,6 +208,41 @@ func c15Check(c *kit.Case, in c15Input) {
 		got2 := MerklizationSerializedStateWithCache(skv, nil)
 		if got2 != got {
 			c.Failf("WithCache(nil) root %x differs from %x", got2, got)
+		}
+	}
+	// history on one list: entries are updated in place and the list is merklized again
+	if last == nil || len(in.Muts) == 0 {
+		return
+	}
+	cur := make([]c15KV, len(last))
+	for i := range last {
+		cur[i] = c15KV{K: append([]byte(nil), last[i].Key[:]...), V: append([]byte(nil), last[i].Value...)}
+	}
+	for mi, m := range in.Muts {
+		if m.Idx < 0 || m.Idx >= len(last) || m.KeyBit >= 248 {
+			return
+		}
+		nk := append([]byte(nil), cur[m.Idx].K...)
+		if m.KeyBit >= 0 {
+			nk[m.KeyBit/8] ^= 1 << (7 - uint(m.KeyBit%8))
+			dup := false
+			for i := range cur {
+				if i != m.Idx && bytes.Equal(cur[i].K, nk) {
+					dup = true
+				}
+			}
+			if dup {
+				continue // keys stay distinct
+			}
+		}
+		cur[m.Idx] = c15KV{K: nk, V: append([]byte(nil), m.Val...)}
+		copy(last[m.Idx].Key[:], nk)
+		last[m.Idx].Value = append(types.ByteSequence(nil), m.Val...)
+		c.Class("in_place_update")
+		wantM := c15RefRoot(cur, 0)
+		gotM := MerklizationSerializedState(last)
+		if !bytes.Equal(gotM[:], wantM[:]) {
+			c.Failf("root after in-place update %d of the list merklized last: implementation %x reference %x (%d entries)", mi, gotM, wantM, len(cur))
 		}
 	}
 }
